@@ -726,6 +726,9 @@ pub fn spec_for(prop: &str, tier: Tier) -> Option<CheckSpec> {
             let mut v = conc_core(tier, &["C02"]);
             v.extend(seq_core(tier, &["C02"]));
             v.extend(reach_scenarios(tier, &["C02"], false, false));
+            // "... or the pool is closed": waiters must be completed by close()
+            v.extend(c06_scenarios(tier).into_iter().filter(|s| s.name.contains("close-histories") || s.name.contains("close-vs-waiter") || s.name.contains("resize-to-zero")));
+            v.extend(reach_scenarios(tier, &["C02"], false, true));
             v
         }
         "C03" => {
